@@ -285,6 +285,10 @@ def Field(
     )
 
 
+# Filled only if GALLIA_VERIF=1 (see GalliaBaseModel.__init_subclass__)
+_VERIF_DECLARED_FIELDS: list[tuple[Any, ...]] = []
+
+
 class GalliaBaseModel(BaseCommand, ABC):
     """
     Base class for config classes for commands.
@@ -325,6 +329,22 @@ class GalliaBaseModel(BaseCommand, ABC):
 
         cls._config_section = config_section
         cls._cli_group = cli_group
+
+        if os.environ.get("GALLIA_VERIF") == "1":
+            # Verification hook: remember the metadata exactly as declared in the class body
+            for attribute, info in vars(cls).items():
+                if isinstance(info, ConfigArgFieldInfo):
+                    _VERIF_DECLARED_FIELDS.append(
+                        (
+                            cls,
+                            attribute,
+                            info.config_section if info.config_section is not None else config_section,
+                            info.positional,
+                            info.short,
+                            info.const,
+                            info.hidden,
+                        )
+                    )
 
         for attribute, info in vars(cls).items():
             # Attribute specific annotation takes precedence
